@@ -329,11 +329,13 @@ def main(modname, argv=None):
         if sig in seen_sig:
             continue
         # believe a failure only if it reproduces in this (fresh) process
-        if not case.get('finalize') and not case.get('crash') and not getattr(mod, 'NO_REPRO', False) and not sig.startswith('crash:'):
+        nrepro = sum(1 for v in seen_sig.values() if v[1].get('_reproduced')) 
+        if nrepro < 4 and not case.get('finalize') and not case.get('crash') and not getattr(mod, 'NO_REPRO', False) and not sig.startswith('crash:'):
             r2 = run_in_env(modname, mod, case)
             if not any(q['sig'] == sig for q in r2['problems']):
                 flaky.append((case, p))
                 continue
+            p['_reproduced'] = True
         seen_sig[sig] = [case, p, agg.sig_count.get(sig, 1)]
     rc = 0
     for sig, (k, n, case) in sorted(known_hit.items()):
